@@ -398,6 +398,16 @@ def handleFormatFiles (j : Json) : Option Json := do
     ("changed", Json.bool (formatFilesChanged r)),
     ("passes", Json.arr (r.2.map (fun l => Json.arr (l.map (fun (n : Nat) => Json.num n)).toArray)).toArray)])
 
+def handleStyle (j : Json) : Option Json := do
+  let name ← (field? j "name") >>= getStr?
+  let static ← (field? j "static") >>= getBool?
+  let priv ← (field? j "private") >>= getBool?
+  let words := (Style.listWords name.toList).map String.ofList
+  let r := match Style.renameVariable name.toList static priv with
+    | .ok s => Json.str (String.ofList s)
+    | .raises => Json.null
+  some (Json.mkObj [("words", Json.arr (words.map Json.str).toArray), ("name", r)])
+
 def dispatch (j : Json) : Json :=
   match (field? j "suite") >>= getStr? with
   | some "sched" => (handleSched j).getD bad
@@ -416,6 +426,7 @@ def dispatch (j : Json) : Json :=
   | some "perms" => (handlePerms j).getD bad
   | some "offsets" => (handleOffsets j).getD bad
   | some "formatfiles" => (handleFormatFiles j).getD bad
+  | some "style" => (handleStyle j).getD bad
   | _ => bad
 
 partial def loop (h : IO.FS.Stream) (out : IO.FS.Stream) : IO Unit := do
